@@ -73,20 +73,24 @@ pub fn run_threads(seed: u64, tier: &str, out: &mut Out) {
         let plans: Vec<(u64, u64)> = (0..nthreads).map(|_| (*rng.pick(&[1u64, 1, 2, 3, 7]), *rng.pick(&[0u64, 0, 1, 2]))).collect();   // (inc amount, dec amount)
         let bad_fraction = std::sync::Arc::new(std::sync::atomic::AtomicBool::new(false));
         let handles: Vec<_> = plans.iter().map(|&(i, d)| { let b = pb.clone(); let bf = bad_fraction.clone(); std::thread::spawn(move || {
-            for k in 0..per { b.inc(i); if d > 0 { b.dec(d); } if k % 4096 == 0 { let mut f = -1.0f32; b.update(|s| f = s.fraction()); if !(0.0..=1.0).contains(&f) { bf.store(true, std::sync::atomic::Ordering::Relaxed); } } }
+            for k in 0..per { b.inc(i); if d > 0 { b.dec(d); } if k % 16 == 0 { b.inc_length(i); } if k % 4096 == 0 { let mut f = -1.0f32; b.update(|s| f = s.fraction()); if !(0.0..=1.0).contains(&f) { bf.store(true, std::sync::atomic::Ordering::Relaxed); } } }
         }) }).collect();
         // a bystander thread that, meanwhile, keeps making calls which by the property have no influence on the position
         // (reset_eta / reset_elapsed / tick / message / length calls): an update lost to one of them is a lost update all the same
         let stop = std::sync::Arc::new(std::sync::atomic::AtomicBool::new(false));
         let bystander = if round % 2 == 1 { let b = pb.clone(); let st = stop.clone(); Some(std::thread::spawn(move || { let mut k = 0u64;
-            while !st.load(std::sync::atomic::Ordering::Relaxed) { match k % 6 { 0 => b.reset_eta(), 1 => b.reset_elapsed(), 2 => b.tick(), 3 => b.set_message("m"), 4 => b.inc_length(1), _ => b.dec_length(1) } k += 1; } })) } else { None };
+            while !st.load(std::sync::atomic::Ordering::Relaxed) { match k % 6 { 0 => b.reset_eta(), 1 => b.reset_elapsed(), 2 => b.tick(), 3 => b.set_message("m"), 4 => b.inc_length(1), _ => b.dec_length(1) } k += 1; } k })) } else { None };
         let panicked = handles.into_iter().map(|h| h.join()).filter(|r| r.is_err()).count();
         stop.store(true, std::sync::atomic::Ordering::Relaxed);
-        let panicked = panicked + bystander.map_or(0, |h| h.join().is_err() as usize);
+        let (bpanic, bcalls) = match bystander.map(|h| h.join()) { None => (0, 0u64), Some(Ok(k)) => (0, k), Some(Err(_)) => (1, 0) };
+        let panicked = panicked + bpanic;
+        // the length: every worker added its increment every 16th iteration, the bystander added and removed 1 in turn (adding first)
+        let want_len: Option<u64> = match len { Some(l) if l <= 1000 => { let mut w = l; for &(i, _) in &plans { w += i * ((per + 15) / 16); } Some(w + (bcalls + 1) / 6 - bcalls / 6) } _ => None };
         let mut want = start;
         for &(i, d) in &plans { want = want.wrapping_add(i.wrapping_mul(per)).wrapping_sub(d.wrapping_mul(per)); }
         let got = pb.position();
-        let verdict = if panicked > 0 { format!("FAIL panic-under-concurrency {panicked} of {nthreads} threads panicked in inc/dec") } else if got != want { format!("FAIL lost-updates {nthreads} threads x {per} calls: position {got}, expected {want} (start {start})") }
+        let got_len = pb.length();
+        let verdict = if let (Some(w), true) = (want_len, got_len != want_len) { format!("FAIL lost-length-updates {nthreads} threads: length {got_len:?}, expected {w} (every inc_length / dec_length counted once)") } else if panicked > 0 { format!("FAIL panic-under-concurrency {panicked} of {nthreads} threads panicked in inc/dec") } else if got != want { format!("FAIL lost-updates {nthreads} threads x {per} calls: position {got}, expected {want} (start {start})") }
             else if bad_fraction.load(std::sync::atomic::Ordering::Relaxed) { "FAIL fraction-out-of-range during concurrent updates".to_string() } else { "ok".into() };
         std::mem::forget(pb);
         out.emit(&format!("NOMODEL THREADS n={nthreads} per={per} start={start} len={len:?} hidden={hidden} bystander={} plans={plans:?}", round % 2 == 1), &format!(" ORACLE {verdict}"));
